@@ -48,3 +48,74 @@ class Unpicklable:
 
   def __repr__(self):
     return 'Unpicklable()'
+
+
+# ---------------------------------------------------------------------------
+# helpers of the scheduler-hosted 'run_siblings' scenario (C20 ownership mode)
+# ---------------------------------------------------------------------------
+
+
+class SchedClock:
+  """`time` look-alike for library code running under the deterministic scheduler.
+
+  The clock stands still (no give-up path is ever reached); sleep() is a
+  scheduling point where every enabled thread may be chosen, so the polling
+  loops of WorkerPool.run / Worker.submit cannot starve the other threads.
+  """
+
+  def __init__(self, now=1000.0):
+    self.now = now
+
+  def time(self):
+    return self.now
+
+  def sleep(self, x):
+    del x
+    from vlib.sched import core
+    s = core.ACTIVE
+    if s is not None and s.controlled() and not s.aborted:
+      s.block(lambda: True, 'time.sleep')
+
+  def __getattr__(self, name):
+    return getattr(time, name)
+
+
+def sched_futures(real_futures):
+  """`concurrent.futures` look-alike whose wait() parks a controlled thread."""
+  from vlib.sched import core, shims
+
+  def wait(fs, timeout=None, return_when=real_futures.ALL_COMPLETED):
+    fs = list(fs)
+    s = core.ACTIVE
+    if s is None or not s.controlled():
+      return real_futures.wait(fs, timeout=timeout, return_when=return_when)
+    if return_when == real_futures.ALL_COMPLETED:
+      pred = lambda: all(f.done() for f in fs)
+    else:
+      pred = lambda: any(f.done() for f in fs)
+    s.block(pred, 'futures.wait', timed=timeout is not None)
+    done = {f for f in fs if f.done()}
+    return real_futures._base.DoneAndNotDoneFutures(done, set(fs) - done)  # pylint: disable=protected-access
+
+  return shims._Namespace(real_futures, {'wait': wait})  # pylint: disable=protected-access
+
+
+def counting_lock():
+  """Shim lock that counts its releases.
+
+  "Did this release() call free the ownership lock" must not be read from
+  locked() afterwards: a waiting acquirer may already hold the lock again.
+  """
+  from vlib.sched import shims
+
+  class CountingLock(shims.Lock):
+
+    def __init__(self):
+      super().__init__()
+      self.releases = 0
+
+    def release(self):
+      self.releases += 1
+      return super().release()
+
+  return CountingLock()
